@@ -68,12 +68,27 @@ Definition w_page_ok : xpage :=
   {| p_magic := 53523; p_info_hi := 4; p_long := true; p_cont := false; p_tli := 1; p_addr := 16777216;
      p_remlen := 0; p_hpad := 0; p_sysid := 7412345678901234567; p_segsize := 16777216; p_blcksz := 8192;
      p_contbytes := []; p_recs := [w_rec_plain; w_rec_big] |}.
+Lemma w_rec_plain_clean : wf_rec w_rec_plain /\ rec_clean w_rec_plain.
+Proof.
+  unfold wf_rec, rec_clean, wf_body, wf_main. closed_arith. all: try exact I. all: try reflexivity.
+Qed.
+Lemma w_rec_big_clean : wf_rec w_rec_big /\ rec_clean w_rec_big.
+Proof.
+  unfold wf_rec, rec_clean, wf_body, wf_main, in_u.
+  cbn [x_xid x_prev x_info x_rmid x_pad x_crc x_main x_blocks w_rec_big].
+  repeat split; try lia; try (vm_compute; congruence); try reflexivity.
+  all: try (intros _ H; discriminate H).
+Qed.
 Example w_page_ok_wf : wf_page w_page_ok /\ Forall rec_clean (p_recs w_page_ok) /\ kf_straddle w_page_ok = false.
 Proof.
-  unfold wf_page, wf_page_gen, wf_rec. cbn [p_cont w_page_ok p_recs starts_ok].
-  closed_arith; try exact I.
-  all: try (repeat constructor; try (vm_compute; reflexivity); try exact I; try (intros H; discriminate H)).
-  all: try (intros; vm_compute; reflexivity).
+  destruct w_rec_plain_clean as [W1 C1]. destruct w_rec_big_clean as [W2 C2].
+  split; [|split].
+  - unfold wf_page, wf_page_gen. cbn [p_cont w_page_ok p_recs starts_ok].
+    repeat match goal with |- _ /\ _ => split end; auto; unfold in_u; try (vm_compute; first [reflexivity|congruence]).
+    all: try exact I.
+    all: vm_compute; try (split; [discriminate|reflexivity]); auto.
+  - cbn [p_recs w_page_ok]. constructor; [assumption|]. constructor; [assumption|]. constructor.
+  - vm_compute. reflexivity.
 Qed.
 Example w_page_ok_exact_end :
   first_start w_page_ok + x_totlen w_rec_plain + x_totlen w_rec_big = 8192.
